@@ -64,7 +64,12 @@ func raceLogTail() string {
 	return string(out)
 }
 
+var c20Stuck bool
+
 func c20Check(c c20Case, st *stats.Run) error {
+	if c20Stuck {
+		return nil
+	}
 	p := hx.ThePool()
 	old := runtime.GOMAXPROCS(c.Procs)
 	defer runtime.GOMAXPROCS(old)
@@ -278,8 +283,9 @@ func c20Check(c c20Case, st *stats.Run) error {
 	go func() { wg.Wait(); close(finished) }()
 	select {
 	case <-finished:
-	case <-time.After(240 * time.Second):
-		return pbt.Failf("C20/concurrent-result-differs", "%d goroutines sharing %v values did not finish within 240 s (every operation takes well under a second alone): they block one another", len(c.Goroutines), c.Kinds)
+	case <-time.After(150 * time.Second):
+		c20Stuck = true // the blocked goroutines stay behind: nothing run after this in the same process means anything
+		return pbt.Failf("C20/concurrent-result-differs", "%d goroutines sharing %v values did not finish within 150 s (every operation takes well under a second alone): they block one another", len(c.Goroutines), c.Kinds)
 	}
 	close(errs)
 	if raceLogSize() != before {
@@ -358,7 +364,8 @@ func TestC20(t *testing.T) {
 		}
 		yield(c20Case{Kinds: []string{"scrypt16"}, Goroutines: gs, Procs: 4, Fresh: true})
 		if s.Thorough() {
-			yield(c20Case{Kinds: []string{"scrypt16"}, Goroutines: append(append(append(gs, gs...), gs...), gs...), Procs: 16, Fresh: false})
+			// many more goroutines than the process had processors when it started
+			yield(c20Case{Kinds: []string{"scrypt16"}, Goroutines: append(append(append(gs, gs...), gs...), gs[:2]...), Procs: 16, Fresh: false})
 		}
 	}, check)
 	// a shared list of identities, each file matching another entry
